@@ -308,7 +308,11 @@ def shards(tier, seed):
 
 
 def run_shard(shard, col):
-    drive(cases(), check, n=shard["n"], seed=hash32(shard["seed"], "C28", shard["k"]), col=col)
+    import os
+
+    # VF_NO_SHRINK=1 (mutation experiments only): skip Hypothesis shrinking, each step of which is a mapper run
+    drive(cases(), check, n=shard["n"], seed=hash32(shard["seed"], "C28", shard["k"]), col=col,
+          shrink=os.environ.get("VF_NO_SHRINK") != "1")
 
 
 def replay(desc, col):
